@@ -306,7 +306,7 @@ METAS_FULL = tuple(itertools.product(((), (('l', 'v'),), (('l', 'a'),), (('l', '
                         'kopf._core.intents.registries._matches_metadata', 'kopf._core.intents.registries._matches_field_values',
                         'kopf._core.intents.registries._matches_field_changes', 'kopf._core.intents.registries._matches_filter_callback',
                         'kopf._core.intents.registries.ResourceRegistry.get_handlers'],
-         props=['C15'],
+         props=['C15', 'C02', 'C03', 'C04', 'C06', 'C14', 'C17', 'C18'],
          clauses=['changing_exact', 'watching_exact', 'indexing_exact', 'spawning_exact', 'webhooks_exact',
                   'prematch_covers_match', 'callbacks_get_none_for_absent'],
          universe='A (fields): 12 handler kinds x {no field, field spec.x with value in {unset,"a",PRESENT,ABSENT,cb==a,cb is None}, and for '
@@ -470,7 +470,7 @@ class _AbstractSeen:
         self.added.append(key)
 
 
-@harness('R3', targets='kopf._core.intents.registries._deduplicated', props=['C15'],
+@harness('R3', targets='kopf._core.intents.registries._deduplicated', props=['C15', 'C02', 'C05', 'C09', 'C11', 'C14', 'C17', 'C18', 'C20'],
          clauses=['starts_empty', 'yield_iff_unseen', 'remembers_exactly_this_key', 'bounded_reference', 'frame'],
          canaries=['canary.yields_everything', 'canary.bounded_keeps_all'],
          assumes=['id(handler.fn) identifies the function object for the duration of the call (CPython: the handlers hold references)'])
